@@ -1,6 +1,7 @@
 (* Eval07.v — evaluation of C07 observations: one goderive run over a package with a given previous
    state of derived.gen.go, compared with the model of the run (regen fixed p old) and with the
-   property (the outcome of the run from scratch, byte-identical file).
+   property (byte-identical to what the run from scratch leaves, SAME, measured by the harness).
+   By C07_regen_old_independent the model's prediction for any OLD is its prediction for the scratch run.
 
    line:  (regen PKG OLD REAL SAME)
      PKG  = (EXPR ...)          EXPR = (var V TY) | (app K N EXPR)     K = keys | sort | set
@@ -140,16 +141,33 @@ Definition eval07 (e : sexp) : verdict :=
         match map_opt (expr_of_sexp 50) pk, disk_of_sexp od with
         | Some p, Some old =>
             let model := regen fixed p old in
-            let scratch := regen fixed p Absent in
             let pinned := regen legacy p old in
             {| v_known := true;
                v_model_ok := sexp_eqb (sexp_of_result model) real;
-               v_spec_ok := sexp_eqb (sexp_of_result scratch) real && Z.eqb same 1;
+               (* the property itself, as measured: the run left byte-for-byte what the scratch copy of the
+                  same sources got (both absent / both refused count as equal) *)
+               v_spec_ok := Z.eqb same 1;
                v_guard := true;
                v_model := sexp_of_result model;
                v_tag := old_tag p old ++ " " ++ depth_tag p ++ " " ++ outcome_tag model ++
                         (if wf p then "" else " not-wf") ++
                         (if result_same pinned model then "" else " (pinned code differed)") |}
+        | _, _ => bad_line
+        end
+      else if String.eqb k "regen-pinned" then
+        (* diagnostic mode (VERIF_C07_PINNED=1, against a tree WITHOUT the fixes): validates the [legacy]
+           configuration of the model and the harness's oracle for cut-off files against the pinned code;
+           only the correspondence is judged here *)
+        match map_opt (expr_of_sexp 50) pk, disk_of_sexp od with
+        | Some p, Some old =>
+            let model := regen legacy p old in
+            {| v_known := true;
+               v_model_ok := sexp_eqb (sexp_of_result model) real;
+               v_spec_ok := true;
+               v_guard := true;
+               v_model := sexp_of_result model;
+               v_tag := "pinned: " ++ old_tag p old ++ " " ++ depth_tag p ++ " " ++ outcome_tag model ++
+                        (if Z.eqb same 1 then " =scratch" else " DIFFERS-from-scratch") |}
         | _, _ => bad_line
         end
       else bad_line
